@@ -2,7 +2,7 @@
 # usage: tools/benign_matrix.sh [checks...]  -- runs every behaviour-preserving refactoring under /verif/benign against the checks; any non-zero exit is a FALSE ALARM
 cd /verif
 CHECKS=${@:-$(python3 -c "import json; print(' '.join(c['property_id'] for c in json.load(open('MANIFEST.json'))['checks']))")}
-OUT=benign/matrix.tsv
+OUT=${OUT:-benign/matrix.tsv}
 for s in benign/*/; do
   n=$(basename $s)
   D=$(mktemp -d /tmp/mutrepo-XXXXXX); cp -r /repo/include $D/include
